@@ -89,6 +89,7 @@ var ErrSdp = errors.New("lal.sdp: fxxk")
 var (
 	ErrDupInStream      = errors.New("lal.logic: in stream already exist at group")
 	ErrDisposedInStream = errors.New("lal.logic: in stream already disposed")
+	ErrRelayPullStopped = errors.New("lal.logic: relay pull stopped")
 
 	ErrSimpleAuthParamNotFound = errors.New("lal.logic: simple auth failed since url param lal_secret not found")
 	ErrSimpleAuthFailed        = errors.New("lal.logic: simple auth failed since url param lal_secret invalid")
